@@ -42,7 +42,8 @@ Definition plen_blob (bs : bytes) : result (N * bytes) :=
 (* STRING: the same packed length as BLOB (0xff, then 24 bits little-endian) - since the repair recorded as fixed: C03-a *)
 Definition plen_string (bs : bytes) : result (N * bytes) :=
   '(n, r) <- get_u 1 bs ;; if n =? 255 then get_u 3 r else Ok (n, r).
-Definition plen_py (bs : bytes) : result (N * bytes) := get_u 1 bs.
+(* PYTHON: the packed length too (fixed: C03-b; it used to be one byte) *)
+Definition plen_py (bs : bytes) : result (N * bytes) := plen_blob bs.
 
 Definition text_or_bytes (b : bytes) : value := if utf8_valid b then VStr b else VBytes b.
 
